@@ -26,12 +26,19 @@ type c05Case struct {
 	Order   []int  `json:"order"`   // finishing order of the activated branches (indices)
 	Storm   bool   `json:"storm"`
 	Reps    int    `json:"reps"`
+	// second activation of the same fork and join: the task behind the join loops back once,
+	// its answer stores the truth assignment of the second pass
+	Loop   bool  `json:"loop,omitempty"`
+	Truth2 int   `json:"truth2,omitempty"`
+	Order2 []int `json:"order2,omitempty"`
 }
 
-func (c *c05Case) activated() []int {
+func (c *c05Case) activated() []int { return c.activatedFor(c.Truth) }
+
+func (c *c05Case) activatedFor(truth int) []int {
 	var a []int
 	for i := 0; i < c.N; i++ {
-		if c.Truth>>i&1 == 1 {
+		if truth>>i&1 == 1 {
 			a = append(a, i)
 		}
 	}
@@ -47,7 +54,14 @@ func c05Graph(c *c05Case) *gen.Graph {
 	t0 := g.Add(gen.Task, "t0", "")
 	of := g.Add(gen.Or, "OF", "")
 	g.Connect(s, t0, nil)
-	g.Connect(t0, of, nil)
+	var xm *gen.Node
+	if c.Loop {
+		xm = g.Add(gen.Xor, "XM", "")
+		g.Connect(t0, xm, nil)
+		g.Connect(xm, of, nil)
+	} else {
+		g.Connect(t0, of, nil)
+	}
 	var oj *gen.Node
 	nb := c.N
 	if c.Default {
@@ -64,7 +78,19 @@ func c05Graph(c *c05Case) *gen.Graph {
 		tj := g.Add(gen.Task, "tj", "")
 		ej := g.Add(gen.End, "endj", "")
 		g.Connect(oj, tj, nil)
-		g.Connect(tj, ej, nil)
+		if c.Loop {
+			tj.Writes = []string{"again"}
+			for i := 0; i < c.N; i++ {
+				tj.Writes = append(tj.Writes, fmt.Sprintf("c%d", i))
+			}
+			xs := g.Add(gen.Xor, "XS", "")
+			g.Connect(tj, xs, nil)
+			g.Connect(xs, xm, &gen.Cond{Kind: "var", Var: "again", Op: ">", Val: 0})
+			d := g.Connect(xs, ej, nil)
+			xs.Default = d.ID
+		} else {
+			g.Connect(tj, ej, nil)
+		}
 	}
 	// order in which the fork lists its outgoing flows: conditional branches 0..N-1
 	// with the default branch (index N) inserted at DefPos
@@ -123,6 +149,38 @@ func c05Cases(tier string, seed uint64) []fw.Case {
 						}
 						cc.Name = fmt.Sprintf("n%d-t%d-d%v@%d-j%d-p%d", n, truth, def, c.DefPos, joins, pi)
 						cs = append(cs, fw.MkCase("stepwise", &cc))
+					}
+					// second activation in a loop: needs a join that releases in the first pass
+					joining := 0
+					for _, i := range act {
+						if joins>>i&1 == 1 {
+							joining++
+						}
+					}
+					if joining > 0 && n <= 3 {
+						for truth2 := 0; truth2 < 1<<n; truth2++ {
+							if tier != "thorough" && (truth+joins+truth2)%2 == 1 {
+								continue
+							}
+							cc := c
+							cc.Loop, cc.Truth2 = true, truth2
+							cc.Order = act
+							act2 := cc.activatedFor(truth2)
+							for rev := 0; rev < 2; rev++ {
+								c3 := cc
+								c3.Order2 = append([]int(nil), act2...)
+								if rev == 1 {
+									if len(act2) < 2 {
+										break
+									}
+									for l, r := 0, len(c3.Order2)-1; l < r; l, r = l+1, r-1 {
+										c3.Order2[l], c3.Order2[r] = c3.Order2[r], c3.Order2[l]
+									}
+								}
+								c3.Name = fmt.Sprintf("loop-n%d-t%d>%d-d%v@%d-j%d-r%d", n, truth, truth2, def, c.DefPos, joins, rev)
+								cs = append(cs, fw.MkCase("loop", &c3))
+							}
+						}
 					}
 					if len(act) >= 2 && (tier == "thorough" || (truth+joins)%5 == 0) {
 						cc := c
@@ -203,133 +261,168 @@ func c05Run(c *c05Case, env *fw.Env, v *fw.V) {
 		fail()
 		return
 	}
-	act := c.activated()
 	shape := fmt.Sprintf("default=%v", c.Default)
 	if c.Default && c.DefPos < c.N {
 		shape += "-not-last"
 	}
-	var want []string
-	for _, i := range act {
-		want = append(want, fmt.Sprintf("b%d", i))
+	type pass struct {
+		truth int
+		order []int
 	}
-	sort.Strings(want)
-	got := in.PendingActs()
-	if fmt.Sprint(got) != fmt.Sprint(want) {
-		v.Violate("fork-branches", shape, "n=%d truth=%b default=%v: branches requested %v, expected %v (every true condition, or the default alone)", c.N, c.Truth, c.Default, got, want)
-		fail()
-		return
+	passes := []pass{{c.Truth, c.Order}}
+	if c.Loop {
+		passes = append(passes, pass{c.Truth2, c.Order2})
+		shape += "-second-activation"
 	}
-	nerr := in.Count("ErrorNoFlow", "OF")
-	wantErr := 0
-	if len(act) == 0 {
-		wantErr = 1
-	}
-	if nerr != wantErr {
-		v.Violate("fork-error-trace", shape, "%d no-effective-flow error traces from the fork (expected %d)", nerr, wantErr)
-	}
-	if n := in.Count("Error", ""); n > 0 {
-		v.Violate("unexpected-error-trace", shape, "%d unexpected error traces", n)
-	}
-	// joining activated branches
-	joinSet := map[int]bool{}
-	for _, i := range act {
-		if c.Joins>>i&1 == 1 {
-			joinSet[i] = true
+	wantErr, wantTjTotal := 0, 0
+	allConsumed := true
+	for pi, p := range passes {
+		act := c.activatedFor(p.truth)
+		last := pi == len(passes)-1
+		var want []string
+		for _, i := range act {
+			want = append(want, fmt.Sprintf("b%d", i))
 		}
-	}
-	jcls := fmt.Sprintf("joining=%d-of-%d-activated", len(joinSet), len(act))
-	tjCount := func() int { return in.Count("Task", "tj") }
-	if c.Storm {
-		var wg sync.WaitGroup
-		barrier := make(chan struct{})
-		for _, r := range in.Pending() {
-			wg.Add(1)
-			go func(r *drive.Req) {
-				defer wg.Done()
-				<-barrier
-				in.Answer(r, bpmn.DoWithResults(nil))
-			}(r)
-		}
-		close(barrier)
-		wg.Wait()
-		if !quiet("after the storm") {
+		sort.Strings(want)
+		got := in.PendingActs()
+		if fmt.Sprint(got) != fmt.Sprint(want) {
+			v.Violate("fork-branches", shape, "activation %d: n=%d truth=%b default=%v: branches requested %v, expected %v (every true condition, or the default alone)", pi+1, c.N, p.truth, c.Default, got, want)
 			fail()
 			return
 		}
-		// causal rule: tj not received before Do was called on every activated joining branch
-		var tjSeq int64 = -1
-		doCall := map[string]int64{}
-		for _, e := range in.Log(0) {
-			if e.Kind == "Task" && e.Node == "tj" && tjSeq < 0 {
-				tjSeq = e.Seq
-			}
-			if e.Kind == "Do.call" {
-				var name string
-				var n int
-				fmt.Sscanf(e.Node, "%2s#%d", &name, &n)
-				doCall[name] = e.Seq
+		if len(act) == 0 {
+			wantErr++
+			allConsumed = false // completion after a token died at the fork is not demanded here
+		}
+		if nerr := in.Count("ErrorNoFlow", "OF"); nerr != wantErr {
+			v.Violate("fork-error-trace", shape, "%d no-effective-flow error traces from the fork (expected %d)", nerr, wantErr)
+		}
+		if n := in.Count("Error", ""); n > 0 {
+			v.Violate("unexpected-error-trace", shape, "%d unexpected error traces", n)
+		}
+		// joining activated branches
+		joinSet := map[int]bool{}
+		for _, i := range act {
+			if c.Joins>>i&1 == 1 {
+				joinSet[i] = true
 			}
 		}
-		for i := range joinSet {
-			if s, ok := doCall[fmt.Sprintf("b%d", i)]; ok && tjSeq >= 0 && tjSeq < s {
-				v.Violate("join-early", jcls, "task behind the join received (seq %d) before b%d was answered (seq %d)", tjSeq, i, s)
+		jcls := fmt.Sprintf("joining=%d-of-%d-activated", len(joinSet), len(act))
+		if pi > 0 {
+			jcls += "-second-activation"
+		}
+		base := wantTjTotal
+		tjCount := func() int { return in.Count("Task", "tj") - base }
+		if c.Storm {
+			var wg sync.WaitGroup
+			barrier := make(chan struct{})
+			for _, r := range in.Pending() {
+				wg.Add(1)
+				go func(r *drive.Req) {
+					defer wg.Done()
+					<-barrier
+					in.Answer(r, bpmn.DoWithResults(nil))
+				}(r)
+			}
+			close(barrier)
+			wg.Wait()
+			if !quiet("after the storm") {
+				fail()
+				return
+			}
+			// causal rule: tj not received before Do was called on every activated joining branch
+			var tjSeq int64 = -1
+			doCall := map[string]int64{}
+			for _, e := range in.Log(0) {
+				if e.Kind == "Task" && e.Node == "tj" && tjSeq < 0 {
+					tjSeq = e.Seq
+				}
+				if e.Kind == "Do.call" {
+					var name string
+					var n int
+					fmt.Sscanf(e.Node, "%2s#%d", &name, &n)
+					doCall[name] = e.Seq
+				}
+			}
+			for i := range joinSet {
+				if s, ok := doCall[fmt.Sprintf("b%d", i)]; ok && tjSeq >= 0 && tjSeq < s {
+					v.Violate("join-early", jcls, "task behind the join received (seq %d) before b%d was answered (seq %d)", tjSeq, i, s)
+				}
+			}
+		} else {
+			delivered := map[int]bool{}
+			answered := 0
+			for _, i := range p.order {
+				if !answer(fmt.Sprintf("b%d", i)) {
+					v.Inconclusive("order", "b%d not pending", i)
+					return
+				}
+				answered++
+				if joinSet[i] {
+					delivered[i] = true
+				}
+				if !quiet(fmt.Sprintf("after answering b%d", i)) {
+					fail()
+					return
+				}
+				n := tjCount()
+				if n > 1 {
+					v.Violate("join-twice", jcls, "task behind the join requested %d times for one fork activation", n)
+					fail()
+					return
+				}
+				if len(delivered) < len(joinSet) && n > 0 {
+					v.Violate("join-early", jcls, "join released after %v although activated joining branches %v have not all delivered", keys(delivered), keys(joinSet))
+					fail()
+					return
+				}
+				if answered == len(act) && len(joinSet) > 0 && n != 1 {
+					v.Violate("join-late", jcls, "every token of the fork has arrived or ended (order %v) but the task behind the join was requested %d times", p.order, n)
+					fail()
+					return
+				}
 			}
 		}
-	} else {
-		delivered := map[int]bool{}
-		answered := 0
-		for _, i := range c.Order {
-			if !answer(fmt.Sprintf("b%d", i)) {
-				v.Inconclusive("order", "b%d not pending", i)
-				return
-			}
-			answered++
-			if joinSet[i] {
-				delivered[i] = true
-			}
-			if !quiet(fmt.Sprintf("after answering b%d", i)) {
-				fail()
-				return
-			}
-			n := tjCount()
-			if n > 1 {
-				v.Violate("join-twice", jcls, "task behind the join requested %d times for one fork activation", n)
-				fail()
-				return
-			}
-			if len(delivered) < len(joinSet) && n > 0 {
-				v.Violate("join-early", jcls, "join released after %v although activated joining branches %v have not all delivered", keys(delivered), keys(joinSet))
-				fail()
-				return
-			}
-			if answered == len(act) && len(joinSet) > 0 && n != 1 {
-				v.Violate("join-late", jcls, "every token of the fork has arrived or ended (order %v) but the task behind the join was requested %d times", c.Order, n)
-				fail()
-				return
-			}
+		n := tjCount()
+		wantTj := 0
+		if len(joinSet) > 0 {
+			wantTj = 1
 		}
-	}
-	n := tjCount()
-	wantTj := 0
-	if len(joinSet) > 0 {
-		wantTj = 1
-	}
-	if n != wantTj {
-		v.Violate("join-count", jcls, "task behind the join requested %d times, expected %d (activated %v, joining %v)", n, wantTj, act, keys(joinSet))
-		fail()
-		return
-	}
-	if wantTj == 1 {
-		answer("tj")
-		if !quiet("after answering tj") {
+		if n != wantTj {
+			v.Violate("join-count", jcls, "task behind the join requested %d times, expected %d (activated %v, joining %v)", n, wantTj, act, keys(joinSet))
 			fail()
 			return
 		}
-	}
-	if len(act) > 0 {
-		if k := in.Count("CeaseFlow", ""); k != 1 {
-			v.Violate("not-complete", jcls, "%d cease-flow traces after every task was answered; engine goroutines blocked: %v", k, topFrames(in))
-			fail()
+		wantTjTotal += wantTj
+		if wantTj == 1 {
+			res := map[string]any{}
+			if c.Loop {
+				res["again"] = 0
+				if !last {
+					res["again"] = 1
+					for i := 0; i < c.N; i++ {
+						res[fmt.Sprintf("c%d", i)] = passes[pi+1].truth >> i & 1
+					}
+				}
+			}
+			for _, r := range in.Pending() {
+				if r.Act == "tj" {
+					in.Answer(r, bpmn.DoWithResults(res))
+				}
+			}
+			if !quiet("after answering tj") {
+				fail()
+				return
+			}
+		} else if !last {
+			v.Inconclusive("loop", "first activation did not reach the loop")
+			return
+		}
+		if last && allConsumed {
+			if k := in.Count("CeaseFlow", ""); k != 1 {
+				v.Violate("not-complete", jcls, "%d cease-flow traces after every task was answered; engine goroutines blocked: %v", k, topFrames(in))
+				fail()
+			}
 		}
 	}
 	v.Add("traces", len(in.Log(0)))
@@ -375,7 +468,7 @@ func init() {
 			v.Nontrivial = true
 			return v
 		},
-		Rule:       "exhaustive grid: 1..4 conditional branches x all truth assignments x default present/absent x every subset of branches leading to the join (others end in their own end event) x all finishing orders of the activated branches; fork checked exactly (requests = true conditions / default alone / error trace), join checked against the window the statement gives (not before every activated joining branch delivered, exactly once by the time every token of the fork has arrived or ended, never twice); storm variants answer all branches concurrently with tracker hooks active; every cell non-trivial; distinct = descriptor hash",
+		Rule:       "exhaustive grid: 1..4 conditional branches x all truth assignments x default present/absent x every subset of branches leading to the join (others end in their own end event) x all finishing orders of the activated branches; fork checked exactly (requests = true conditions / default alone / error trace), join checked against the window the statement gives (not before every activated joining branch delivered, exactly once by the time every token of the fork has arrived or ended, never twice); storm variants answer all branches concurrently with tracker hooks active; loop variants (n <= 3) send the token behind the join back through the same fork and join for a second activation with every truth assignment (stored by the answer of the task behind the join) and two finishing orders, all rules applied again per activation; every cell non-trivial; distinct = descriptor hash",
 		Exhaustive: func(string) bool { return true },
 		Assumptions: []string{"branches contain single tasks; nested gateways inside inclusive blocks are C01's territory"},
 	})
